@@ -13,6 +13,7 @@ import (
 	"github.com/samaritan-proxy/samaritan/verifrt/sim/cluster"
 	"github.com/samaritan-proxy/samaritan/verifrt/sim/resp"
 	"github.com/samaritan-proxy/samaritan/verifrt/vnet"
+	"github.com/samaritan-proxy/samaritan/verifrt/vrand"
 )
 
 // ---------------------------------------------------------------------------
@@ -170,6 +171,8 @@ func c14body(cs c14case) func() {
 							args = append(args, key)
 						case lname == "mset" && a%2 == 0:
 							args = append(args, key)
+						case lname == "mset":
+							args = append(args, keys[(ni+argc+1)%2]) // a value that, taken for a key, belongs to the other master
 						default:
 							args = append(args, "1")
 						}
@@ -262,7 +265,17 @@ func c14body(cs c14case) func() {
 func c14topologyBody(strategy int) func() {
 	return func() {
 		cl := cluster.New(2, 2, 2)
-		strat := pbredis.ReadStrategy(strategy)
+		strat := pbredis.ReadStrategy(strategy % 3)
+		// variant 1: instead of a replica changing its master, the nodes of the first master's group answer the next
+		// refresh from a partial view that lacks the second master and its replicas (they have just been added or
+		// the gossip has not reached them yet); the owners have not changed
+		partial := strategy >= 3
+		if partial && (strategy/3)%2 == 0 {
+			vrand.Fair()
+			vrand.Intn(2)
+		} else if partial {
+			vrand.Fair()
+		}
 		s := vfStartStack(cl, vfSvcConfig(strat, nil, 0))
 		c := s.NewClient("c0")
 		keys := []string{cl.KeyInGroup("k", 0, 0), cl.KeyInGroup("{}k", 1, 0)}
@@ -274,7 +287,21 @@ func c14topologyBody(strategy int) func() {
 				break
 			}
 		}
-		cl.Reparent(moved, m1)
+		if partial {
+			var g1 []*cluster.Node
+			for _, n := range cl.Nodes {
+				if n == m1 || n.MasterOf == m1 {
+					g1 = append(g1, n)
+				}
+			}
+			for _, n := range cl.Nodes {
+				if n == m0 || n.MasterOf == m0 {
+					n.Hides = g1
+				}
+			}
+		} else {
+			cl.Reparent(moved, m1)
+		}
 		// periodic refresh (2 virtual minutes) picks the new topology up
 		sched.AdvanceTime(int64(slotsRefFreq) + 1)
 		sched.WaitQuiescent()
@@ -296,7 +323,15 @@ func c14topologyBody(strategy int) func() {
 						if write {
 							kind = "write-command-sent-to-non-master"
 						}
-						sched.Fail(fmt.Sprintf("%s / after replica moved to another master / strategy=%s", kind, strat), fmt.Sprintf("%q arrived at %s, owner %s, %s replicates %s now", e.Args, e.Node, owner.ID, e.Node, node.MasterOf.ID))
+						what := "after replica moved to another master"
+						if partial {
+							what = "after a refresh answered from a partial view"
+						}
+						rep := "-"
+						if node != nil && node.MasterOf != nil {
+							rep = node.MasterOf.ID
+						}
+						sched.Fail(fmt.Sprintf("%s / %s / strategy=%s", kind, what, strat), fmt.Sprintf("%q arrived at %s, owner %s, %s replicates %s now", e.Args, e.Node, owner.ID, e.Node, rep))
 					}
 				}
 			}
@@ -354,7 +389,7 @@ func c14run(env sched.Env) *sched.Report {
 func init() {
 	sched.Register(&sched.Scenario{Name: "C14/topology", Custom: func(env sched.Env) *sched.Report {
 		rep := &sched.Report{Outcomes: map[string]int64{}, Complete: true}
-		for strat := 0; strat < 3; strat++ {
+		for strat := 0; strat < 9; strat++ { // 0-2: a replica changes its master; 3-8: partial view, both rotations
 			e := sched.RunOnce(nil, sched.Options{MaxSteps: 400000}, c14topologyBody(strat))
 			rep.Execs++
 			sched.Progress(nil)
